@@ -112,11 +112,11 @@ PROPS = {
     },
     "C15": {
         "family": lambda tier, seed: _c15(tier, seed),
-        "bounds": {"quick": "structured part: 20 single-trait field attributes (every carrier spelling) x named/tuple x struct/enum, all of {Debug, PartialEq, Eq, PartialOrd, Ord, Hash, Clone, Default} educed; packed part: 8 packed structs with an address-sensitive eq method with/without Copy/Clone; Deref part: 20 structs/enums educing Deref + DerefMut (markers on different same-typed fields that also carry another trait's attribute) next to PartialEq/Hash/Debug/Clone/PartialOrd; random part: 24 programs (structs and 2-3 variant enums, 1-3 fields of u8/u16/bool) educing all or a random subset (reordered, joined or split) of {Debug, PartialEq, Eq, PartialOrd, Ord, Hash, Clone, Default, Into(u16)}; every field draws an independent random attribute per trait (ignore/method/rank/rename/expression/marker)",
+        "bounds": {"quick": "structured part: 20 single-trait field attributes (every carrier spelling) x named/tuple x struct/enum, all of {Debug, PartialEq, Eq, PartialOrd, Ord, Hash, Clone, Default} educed; packed part: 8 packed structs with an address-sensitive eq method with/without Copy/Clone; Deref part: 20 structs/enums educing Deref + DerefMut (markers on different same-typed fields that also carry another trait's attribute) next to PartialEq/Hash/Debug/Clone/PartialOrd; field-less enums with explicit discriminants x 4 trait sets (12); every non-generic member with Hash carries the Hash-only twin obligation; random part: 24 programs (structs and 2-3 variant enums, 1-3 fields of u8/u16/bool) educing all or a random subset (reordered, joined or split) of {Debug, PartialEq, Eq, PartialOrd, Ord, Hash, Clone, Default, Into(u16)}; every field draws an independent random attribute per trait (ignore/method/rank/rename/expression/marker)",
                    "thorough": "120 programs"},
         "trusted": [], "assumptions": ["weaker than stated: each trait's contract is generated from that trait's attributes alone and must hold whatever the other traits carry; token-level 'impl unchanged' is not decided",
                                        "the random part is a seeded pseudo-random family (VERIF_SEED); must-fail canaries: PartialEq (2) and Deref (2) members with a mutated meaning"],
-        "explanation": "per-trait contracts under adversarial attributes of every other trait on the same fields",
+        "explanation": "per-trait contracts under adversarial attributes of every other trait on the same fields; Hash additionally feeds exactly the data of the same type educing Hash alone",
     },
     "C17": {
         "custom": _c17, "engine": "kani+verus",
